@@ -525,6 +525,34 @@ def c08_n1(ctx):
             yield ok("C08-N1", key, at(f, t["span"]["line"]), "(0,0) metadata marker under metadata.is_none()")
         else:
             yield bad("C08-N1", key, at(f, t["span"]["line"]), "request converted from %s %s" % (arg, "without metadata.is_none()" if arg == "tuple{const(0), const(0)}" else "(not the (0,0) marker)"))
+    # (i'') `gaps(..).into_iter().map(SegmentRequestForm::from)`: the conversion of a (start, end) pair
+    for f in fns:
+        ebf = ExprBuilder(ctx.prog, f)
+        for b, t in f.all_calls():
+            ce = ebf.call(b, t)
+            if ce[0] != "call" or (callee_name(ce) or "").split("::")[-1] != "map" or len(ce[3]) != 2:
+                continue
+            fnarg = ce[3][1]
+            while fnarg[0] == "ref":
+                fnarg = fnarg[2]
+            txtf = expr_str(fnarg)
+            if not (fnarg[0] in ("fn", "const", "uneval") and "from" in txtf and "SegmentRequestForm" in (txtf + str(t["args"][1]))):
+                continue
+            n += 1
+            base = "RecvTransaction::%s:SegmentRequestForm::from" % f.name
+            cnt[base] = cnt.get(base, 0) + 1
+            key = base + ("#%d" % cnt[base] if cnt[base] > 1 else "")
+            src = sstr(ce[3][0])
+            conv = [g for g in ctx.prog.by_norm.values() if g.name == "from" and "SegmentRequestForm" in g.norm and "(u64, u64)" in (g.locals[1]["ty"] if len(g.locals) > 1 else "")]
+            conv_ok = False
+            for g in conv:
+                for _g, gb, gj, gs in agg_sites([g], "SegmentRequestForm"):
+                    ge = simp(ExprBuilder(ctx.prog, g).rvalue(gs["rv"]))
+                    conv_ok = [expr_str(x) for x in ge[5]] == ["%s.0" % [vn for vn, l, pj in g.var_places if l == 1 and not pj][0], "%s.1" % [vn for vn, l, pj in g.var_places if l == 1 and not pj][0]]
+            if re.match(r"^IntoIterator>::into_iter\(Segments::gaps\(", src) and conv_ok:
+                yield ok("C08-N1", key, at(f, t["span"]["line"]), "pairs of %s converted by From<(u64, u64)> (start <- .0, end <- .1)" % src[:100])
+            else:
+                yield bad("C08-N1", key, at(f, t["span"]["line"]), "requests converted from %s, which is not the gap computation (or the conversion does not map (start, end) in order)" % src[:160])
     if n == 0:
         raise Anchor("C08-N1", "SegmentRequestForm constructions in the receiver")
 
@@ -1084,6 +1112,34 @@ def c08_n8(ctx):
 DELAYED_OK = ("push", "drain", "iter", "iter_mut", "len", "is_empty", "first", "last", "deref", "as_slice", "clear", "retain")
 
 
+def _only_polled(ctx, f, local, depth=0):
+    """The `&mut` element held in `local` is only used to call the polling methods of its counter."""
+    from common import local_uses
+
+    if depth > 4:
+        return False
+    us = local_uses(f, local)
+    if not us:
+        return False
+    for kind, ub, uj, u in us:
+        if kind == "stmt":
+            if u["place"]["local"] == local:
+                return False  # written through
+            if u["rv"]["k"] in ("ref", "use") and not u["place"]["proj"]:
+                if not _only_polled(ctx, f, u["place"]["local"], depth + 1):
+                    return False
+                continue
+            return False
+        if kind == "call":
+            d, r, _ = ctx.prog.callee_of(u)
+            cal = r or d or ""
+            if cal.startswith("cfdp_daemon::timer::Counter::") and cal.split("::")[-1] in ("timeout_occurred", "until_timeout", "limit_reached"):
+                continue
+            return False
+        return False
+    return True
+
+
 @rule("C08", "C08-N9", 3, "a pending delayed gap check is never re-timed or re-aimed: the list of delayed checks is only appended to (a freshly started counter with the gap's own window), polled and drained on expiry")
 def c08_n9(ctx):
     fns = impl_and_closures(ctx, RECV)
@@ -1108,6 +1164,8 @@ def c08_n9(ctx):
             key = base + ("#%d" % cnt[base] if cnt[base] > 1 else "")
             if last in ("clear", "retain", "retain_mut", "truncate", "pop", "remove", "swap_remove", "dedup", "dedup_by", "dedup_by_key"):
                 yield bad("C08-N9", key, at(f, t["span"]["line"]), "pending delayed checks are dropped by %s: a gap detected earlier is never asked for" % last)
+            elif last == "index_mut" and not t["dest"]["proj"] and _only_polled(ctx, f, t["dest"]["local"]):
+                yield ok("C08-N9", key, at(f, t["span"]["line"]), "element borrowed mutably only to poll its counter")
             elif last in ("last_mut", "first_mut", "get_mut", "index_mut", "swap", "sort", "sort_by", "sort_by_key", "sort_unstable_by_key", "reverse", "rotate_left", "rotate_right", "fill", "split_first_mut", "split_last_mut"):
                 yield bad("C08-N9", key, at(f, t["span"]["line"]), "a pending delayed check is edited through %s (re-timed, re-aimed or re-ordered): the gap it stands for is requested later than its own delay, or not at all" % last)
             else:
